@@ -94,6 +94,11 @@ pair0_pipe_stop(void *arg)
 	pair0_pipe *p = arg;
 	pair0_sock *s = p->pair;
 
+	// Stop the callbacks first: a receive callback that was already
+	// dispatched may still park a message on aio_recv (rd_ready).
+	nni_aio_stop(&p->aio_send);
+	nni_aio_stop(&p->aio_recv);
+
 	nni_mtx_lock(&s->mtx);
 	if (s->p == p) {
 		s->p = NULL;
@@ -113,9 +118,6 @@ pair0_pipe_stop(void *arg)
 		}
 	}
 	nni_mtx_unlock(&s->mtx);
-
-	nni_aio_stop(&p->aio_send);
-	nni_aio_stop(&p->aio_recv);
 }
 
 static void
